@@ -17,6 +17,7 @@ import (
 	"os"
 	"path/filepath"
 	"sort"
+	"strconv"
 	"strings"
 
 	"verifextract/ex"
@@ -449,6 +450,28 @@ func newSurfaceCalls(c *ex.Ctx, fd *ast.FuncDecl, alpha bool) []string {
 	return out
 }
 
+// szTerm turns one normalised size argument into a SzArg term. sizeLocal = the local that holds the
+// result of findContainerSize in that function ("" if none).
+func szTerm(c *ex.Ctx, fn, e, sizeLocal string) string {
+	switch {
+	case e == "P0.Max.Width":
+		return ".maxW"
+	case e == "P0.Max.Height":
+		return ".maxH"
+	case sizeLocal != "" && e == sizeLocal+".Width":
+		return ".sizeW"
+	case sizeLocal != "" && e == sizeLocal+".Height":
+		return ".sizeH"
+	case e == "ch.Surface.Size.Height" && fn == "list.Dynamic.Draw":
+		return ".childH"
+	}
+	if n, err := strconv.ParseUint(e, 10, 16); err == nil {
+		return fmt.Sprintf("(.lit %d)", n)
+	}
+	c.Fail("%s: unrecognised NewSurface size argument %s", fn, e)
+	return "(.other " + ex.LeanStr(e) + ")"
+}
+
 func pairList(xs [][2]string) string {
 	q := make([]string, len(xs))
 	for i, x := range xs {
@@ -606,6 +629,7 @@ func genRound2(c *ex.Ctx, sbp *strings.Builder) {
 		fd   *ast.FuncDecl
 	}
 	var bodies []bodyT
+	sizeLocals := map[string]string{}
 	for _, w := range ws {
 		full := w.pkg + "." + w.typ
 		names = append(names, full)
@@ -631,6 +655,12 @@ func genRound2(c *ex.Ctx, sbp *strings.Builder) {
 			for _, a := range newSurfaceCalls(c, fd, full != "list.Dynamic") {
 				surfaces = append(surfaces, [2]string{full + "." + fn, a})
 			}
+			// the local assigned from R.findContainerSize(…), by its skeleton name
+			for _, line := range skeletonOf(c, fd) {
+				if k := strings.Index(line, ":=R.findContainerSize("); k > 0 {
+					sizeLocals[full+"."+fn] = line[:k]
+				}
+			}
 			// list.Dynamic's scrolling logic belongs to C19: only its guard, surfaces and child
 			// constraints are C14 facts (below), not the whole body
 			if prefix, ok := bodyPrefix[full]; ok {
@@ -652,6 +682,17 @@ func genRound2(c *ex.Ctx, sbp *strings.Builder) {
 			return o
 		}()))
 	fmt.Fprintf(sbp, "/-- The size arguments of every vxfw.NewSurface call, per function, in source order. -/\ndef newSurfaceArgs : List (String × String) := %s\n\n", pairList(surfaces))
+	// the same as terms the model evaluates
+	var terms []string
+	for _, sf := range surfaces {
+		ab := strings.SplitN(sf[1], " x ", 2)
+		if len(ab) != 2 {
+			ab = []string{"?unrecognised", "?unrecognised"}
+		}
+		terms = append(terms, fmt.Sprintf("(%s, %s, %s)", ex.LeanStr(sf[0]), szTerm(c, sf[0], ab[0], sizeLocals[sf[0]]), szTerm(c, sf[0], ab[1], sizeLocals[sf[0]])))
+	}
+	fmt.Fprintf(sbp, "/-- A size argument of NewSurface: the constraint's Max, the size findContainerSize returned, a literal,\nthe height of the child being wrapped; `other` = a shape the extractor does not know. -/\ninductive SzArg where\n  | maxW | maxH | sizeW | sizeH | childH\n  | lit (n : Nat)\n  | other (src : String)\nderiving DecidableEq, Repr\n\n")
+	fmt.Fprintf(sbp, "/-- newSurfaceArgs as terms: (function, width, height), in source order. -/\ndef surfaceSizes : List (String × SzArg × SzArg) := [%s]\n\n", strings.Join(terms, ", "))
 	for _, b := range bodies {
 		fmt.Fprintf(sbp, "/-- %s: statement skeleton. -/\ndef %s : List String := %s\n\n", c.Pos(b.fd), b.lean, leanList(skeletonOf(c, b.fd)))
 	}
